@@ -180,6 +180,15 @@ def wyMaxT (ts : List Rat) (tv : List (List Rat)) (twoSided : Bool) : List Rat Ã
   let adjMono := (runMax adjRaw.reverse).reverse
   (scatter (List.replicate m 0) order adjMono, raw)
 
+/-- a row of statistics on each test's own scale: |Â·| where the test is two-sided, signed otherwise -/
+def wyTransform (two : List Bool) (row : List Rat) : List Rat :=
+  row.zipIdx.map (fun vc => if two.getD vc.2 false then absR vc.1 else vc.1)
+
+/-- maxT with a per-test list of alternatives (npc.py after repair D17): every hypothesis enters on its own scale and the
+    step-down (order by observed statistic, successive maxima, counts, monotone) runs on the transformed table -/
+def wyMaxTL (ts : List Rat) (tv : List (List Rat)) (two : List Bool) : List Rat Ã— List Rat :=
+  wyMaxT (wyTransform two ts) (tv.map (wyTransform two)) false
+
 /-! ### irr.simulate_npc_dist -/
 
 def simulateNpcDist (permDistr : List (List Rat)) (weights : List Rat)
